@@ -220,7 +220,16 @@ def _fit(D, w, G, setting, cell, used=False, int_grid=False, raw=False):
     m = SparseKDE(D if raw else np.array(D, float), None if w is None else np.array(w, float), **kw)
     if used:  # a USED estimator: fitted on another grid of the same size and queried before the fit that is judged
         Go = np.array(G, float)[::-1] * 1.0 + 0.0123  # another grid of the same size (slightly displaced, other order)
+        # the displaced grid is subject to the same rule as the judged one: with fpoints, a grid one of whose Voronoi
+        # cells holds all but at most one descriptor is not fitted (the tuning loop cannot reach its target)
+        wv = np.full(len(D), 1.0 / len(D)) if w is None else np.asarray(w, float) / np.sum(w)
+        lab_o = _sq(D, Go, cell).argmin(axis=1)
+        Wo = np.array([wv[lab_o == j].sum() for j in range(len(Go))])
+        if "fpoints" in setting and Wo.max() + 1.0 / len(D) >= 1.0 - 1e-9:
+            Go = None
         try:
+            if Go is None:
+                raise ValueError("first fit skipped")
             m.fit(Go)
             m.score_samples(Go + 0.05)
         except Exception:
